@@ -51,7 +51,7 @@ def base_gas():
         ops.append({"op": "junction", "id": "j%d" % i, "pn_bar": 1.0, "tfluid_k": 290.0 + 3 * i})
     ops += [
         {"op": "ext_grid", "id": "eg0", "junction": "j0", "p_bar": 1.0, "t_k": 290.0},
-        {"op": "ext_grid", "id": "eg1", "junction": "j4", "p_bar": 0.9, "t_k": 290.0},
+        {"op": "ext_grid", "id": "eg1", "junction": "j4", "p_bar": 0.9, "t_k": 302.0},  # = start temperature of j4 (consistent description)
         {"op": "ext_grid", "id": "eg2", "junction": "j0", "p_bar": 1.1, "t_k": 290.0},
         {"op": "pipe", "id": "pA", "from": "j0", "to": "j1", "length_km": 1.0, "d_mm": 80.0, "sections": 2},
         {"op": "pipe", "id": "pB", "from": "j1", "to": "j2", "length_km": 0.8, "d_mm": 60.0, "sections": 1},
@@ -146,6 +146,10 @@ def cases(tier):
                     if tier == "quick" and len(kinds) > 4 and perm[0] != kinds[-1] and perm[-1] != kinds[0]:
                         continue
                     out.append(dict(common, kind="kinds", perm=list(perm)))
+                    # on a Sector.NONE net the component list (and with it the order of the internal tables) follows
+                    # the creation order
+                    if not numba:
+                        out.append(dict(common, kind="kinds", perm=list(perm), sector="none"))
     return out
 
 
@@ -187,8 +191,9 @@ def variant_spec(sp0, case):
 _REF = {}
 
 
-def solve(sp, mode, numba):
-    net, idmap = spec.build(sp)
+def solve(sp, mode, numba, sector=None):
+    from pandapipes.pandapipes_net import Sector
+    net, idmap = spec.build(sp, sector=Sector.NONE if sector == "none" else None)
     kw = dict(spec.TIGHT)
     kw.update(mode=mode, use_numba=numba)
     try:
@@ -210,12 +215,12 @@ def run_case(case):
     st0, r0 = _REF[key]
     try:
         spv = variant_spec(sp0, case)
-        st1, r1 = solve(spv, case["mode"], case["numba"])
+        st1, r1 = solve(spv, case["mode"], case["numba"], case.get("sector"))
     except Exception as e:
         return {"status": "build_error:" + type(e).__name__, "violations": [
             viol("variant_build_failed", "%s: %s %s" % (case, type(e).__name__, str(e)[:200]), kind=case["kind"])]}
     vs = []
-    tag = {"kind": case["kind"], "table": case.get("table", "-"), "base": case["base"]}
+    tag = {"kind": case["kind"] + ("_sector_none" if case.get("sector") else ""), "table": case.get("table", "-"), "base": case["base"]}
     if st0 != st1:
         vs.append(viol("verdict_differs", "%s: reference %s, variant %s" % (case, st0, st1), **tag))
     elif r0 is not None:
@@ -227,5 +232,5 @@ def run_case(case):
                 {k: case[k] for k in ("base", "mode", "numba", "kind", "perm") if k in case}, len(diffs), d[0], d[1], d[2], d[3], cols),
                 col=cols[0], ncols=len(cols), **tag))
     return {"status": "ok" if st1 == "ok" else st1, "violations": vs, "nontrivial": st1 == "ok",
-            "sig": core.jhash([case["base"], case["kind"], case.get("table"), case["perm"]]),
+            "sig": core.jhash([case["base"], case["kind"], case.get("table"), case["perm"], case.get("sector")]),
             "info": {"variants_" + case["kind"]: 1}}
